@@ -306,8 +306,12 @@ func c07AcctTokens(a c07Acct) string {
 		a.Version, a.Ctr, a.OpHash, a.OpIdx)
 }
 
-// c07ErrClass maps an error of the real code to the model's refusal enum.
-func c07ErrClass(err error) string {
+// c07ErrClass maps an error of the real code to a refusal class WITHOUT looking
+// at its text: btcd rule errors by their ErrorCode, injected collaborator
+// faults by the call that failed (recorded by the mocks), everything else is
+// the single class "refused" (account/manager.go only has fmt.Errorf texts).
+// The Lean driver prints the same coarse classes.
+func c07ErrClass(err error, w *c07World) string {
 	var re blockchain.RuleError
 	if errors.As(err, &re) {
 		switch re.ErrorCode {
@@ -318,61 +322,21 @@ func c07ErrClass(err error) string {
 		case blockchain.ErrDuplicateTxInputs:
 			return "duplicateInputs"
 		case blockchain.ErrBadTxOutValue:
-			switch {
-			case strings.Contains(re.Description, "negative value"):
-				return "negativeOutput"
-			case strings.Contains(re.Description, "total value"):
-				return "totalTooLarge"
-			default:
-				return "outputTooLarge"
-			}
+			return "badOutputValue"
 		}
 		return "rule:" + re.ErrorCode.String()
 	}
-	m := err.Error()
-	for _, p := range [][2]string{
-		{"verif-auctioneer-fault", "auctioneerFail"},
-		{"verif-store-fault", "storeFail"},
-		{"verif-publish-fault", "publishFail"},
-		{"verif-terms-fault", "termsFail"},
-		{"verif-fund-fault", "fundFail"},
-		{"account must be in", "badState"},
-		{"account has already been closed", "badState"},
-		{"cannot downgrade account", "downgrade"},
-		{"new account value is above accepted maximum", "aboveMax"},
-		{"maximum account value allowed", "aboveMax"},
-		{"current minimum account expiry", "expiryLow"},
-		{"current maximum account expiry", "expiryHigh"},
-		{"unsupported output script", "unsupportedScript"},
-		{"pays to the account's own output script", "ownScript"},
-		{"unable to parse output script", "unparsable"},
-		{"unsupported script type", "unparsable"},
-		{"new account value is below accepted minimum", "belowMin"},
-		{"minimum account value allowed", "belowMin"},
-		{"unknown witness type", "unknownWitness"},
-		{"unhandled witness type", "unknownWitness"},
-		{"results in dust", "closeDust"},
-		{"account output not found in funded packet", "fundWrongScript"},
-		{"account output funded with incorrect value", "fundWrongValue"},
-		{"not found in spending transaction", "scriptNotFound"},
-		{"modifications for expired accounts", "expiredNoModify"},
-		{"dust output", "dustOutput"},
-		{"unsupported deposit input", "unsupportedInput"},
-		{"exceeds input value", "outputsExceedInputs"},
-		{"required for relay", "feeBelowRelay"},
-	} {
-		if strings.Contains(m, p[0]) {
-			return p[1]
-		}
+	if w != nil && w.lastFault != "" {
+		return w.lastFault
 	}
-	return "other:" + m
+	return "refused"
 }
 
 func c07Res(err error) string {
 	if err == nil {
 		return "ok"
 	}
-	return "err " + c07ErrClass(err)
+	return "err " + c07ErrClass(err, nil)
 }
 
 // ---------------------------------------------------------------- oracle helpers
@@ -630,7 +594,7 @@ func (x *c07Run) execOp(cs *c07Case) {
 	case pan != nil:
 		res = fmt.Sprintf("panic:%v", pan)
 	case err != nil:
-		res = "err:" + c07ErrClass(err)
+		res = "err:" + c07ErrClass(err, w)
 	}
 	out := res + " trace=" + e.fmtTrace(orig, w.events)
 	locks := w.lockOutcome()
@@ -642,6 +606,13 @@ func (x *c07Run) execOp(cs *c07Case) {
 	r.Evaluations++
 	r.Count("op/" + cs.Kind)
 	r.Count("res/" + cs.Kind + "/" + res)
+	// input features (independent of any error text): which listed defect the request carries
+	for _, ft := range c07Features(cs) {
+		r.Count("feat/" + cs.Kind + "/" + ft)
+		if err == nil && pan == nil && ft != "expired-path" {
+			r.Count("feat-accepted/" + cs.Kind + "/" + ft)
+		}
+	}
 	r.Count(fmt.Sprintf("ver/%d->%d", cs.Acct.Version, cs.NewVer))
 	if err == nil && pan == nil {
 		r.Distinct(line)
@@ -680,7 +651,7 @@ func (x *c07Run) execOp(cs *c07Case) {
 		taproot = cs.Acct.Version >= 1
 	}
 	if err != nil {
-		cls := c07ErrClass(err)
+		cls := c07ErrClass(err, w)
 		switch cls {
 		case "auctioneerFail":
 			if nS != 0 || nP != 0 {
@@ -1102,6 +1073,51 @@ func txrulesIsDust(o *wire.TxOut) bool {
 }
 
 func dustThreshold(o *wire.TxOut) int64 { return mempool.GetDustThreshold(o) }
+
+// c07Features lists the property-listed defects a request carries, computed
+// from the case alone.
+func c07Features(cs *c07Case) []string {
+	var f []string
+	if cs.Kind != "close" && cs.NewVer < cs.Acct.Version {
+		f = append(f, "downgrade")
+	}
+	if cs.Kind == "renew" || (cs.Kind != "close" && cs.ExpH != 0) {
+		if uint64(cs.ExpH) < uint64(cs.Best)+144 || uint64(cs.ExpH) > uint64(cs.Best)+52560 {
+			f = append(f, "expiry-out-of-window")
+		}
+	}
+	if cs.Kind == "withdraw" || (cs.Kind == "close" && cs.FeKind == "imp") {
+		var sum int64
+		dust := false
+		for _, o := range c07CaseOuts(cs.Outs) {
+			sum += o.Value
+			if o.Value >= 0 && c07IsDust(o) {
+				dust = true
+			}
+		}
+		if dust {
+			f = append(f, "dust-output")
+		}
+		if cs.Kind == "withdraw" && cs.Acct.Value-sum < 100000 {
+			f = append(f, "below-min")
+		}
+		if cs.Kind == "close" && sum > cs.Acct.Value {
+			f = append(f, "overspend")
+		}
+	}
+	if cs.Kind == "deposit" {
+		if cs.Acct.Value+cs.Amount > cs.Max {
+			f = append(f, "above-max")
+		}
+		if cs.Acct.Value+cs.Amount < 100000 {
+			f = append(f, "below-min")
+		}
+	}
+	if cs.Acct.State == uint8(account.StateExpired) || cs.Best >= cs.Acct.Expiry {
+		f = append(f, "expired-path")
+	}
+	return f
+}
 
 func c07Tail(res string) string {
 	if strings.HasPrefix(res, "err ") {
